@@ -317,3 +317,114 @@ Example c19_aac_nonvacuous :
   /\ aac_seqh_of_adts [255; 241; 80; 128; 47; 255; 252] = Ok [175; 0; 18; 16].
 Proof. exact aac_example_ok. Qed.
 (* ---- end of part C ---- *)
+
+(* ---- part E: SDP ---- *)
+(* sdp.Pack -> text -> ParseSdp2LogicContext.  base64.StdEncoding and
+   encoding/hex are external code: the theorems quantify over any functions
+   that obey the five laws `codec_laws` (trusted base, exercised by the
+   correspondence check with python's base64 / binascii). *)
+From Lal Require Import Codec.CodecSdpText Codec.CodecSdp Codec.CodecSdpProofs.
+
+Definition codec_laws (b64_dec hex_dec : bytes -> bytes * bool) (b64_enc hex_enc : bytes -> bytes) : Prop :=
+  (forall x, bytes_ok x -> b64_dec (b64_enc x) = (x, true)) /\
+  (forall x, bytes_ok x -> hex_dec (hex_enc x) = (x, true)) /\
+  (forall x, bytes_ok x -> clean (b64_enc x) = true) /\     (* no ';' ',' or ASCII white space (incl. CR, LF) *)
+  (forall x, bytes_ok x -> clean (hex_enc x) = true) /\
+  (forall x, bytes_ok x -> lenN (hex_enc x) = 2 * lenN x).
+
+(* the full statement: for every VideoInfo / AudioInfo (byte strings, int64
+   sampling frequency, a=tool text without CR/LF): Pack refuses exactly when
+   neither track is usable, and otherwise the context it returns has, per
+   accepted track, base and origin payload type = the packed type, clock rate
+   90000 / the sampling frequency (48000 for Opus), control streamid=0 / 1 (audio
+   gets 0 when there is no video), Vps/Sps/Pps byte for byte, and Asc byte for
+   byte when it has at least 2 bytes (None when shorter: ParseAsc wants 4 hex
+   digits); a missing track reads as has=false, type unknown. *)
+Theorem c19_sdp : forall b64_dec hex_dec b64_enc hex_enc, codec_laws b64_dec hex_dec b64_enc hex_enc ->
+  forall tool v a, nocrlf tool = true -> vinfo_ok v -> ainfo_ok a -> int64 (ai_rate a) ->
+  match video_kind v, audio_kind a with
+  | None, None => sdp_pack b64_dec hex_dec b64_enc hex_enc tool v a = Err err_other
+  | vk, ak => exists raw, sdp_pack_text b64_enc hex_enc tool v a = Some raw /\
+                          sdp_pack b64_dec hex_dec b64_enc hex_enc tool v a = Ok (exp_ctx raw vk ak)
+  end.
+Proof. intros ? ? ? ? (H1 & H2 & H3 & H4 & H5). exact (sdp_pack_roundtrip _ _ _ _ H1 H2 H3 H4 H5). Qed.
+Print Assumptions c19_sdp.
+
+Theorem c19_sdp_video : forall b64_dec hex_dec b64_enc hex_enc, codec_laws b64_dec hex_dec b64_enc hex_enc ->
+  forall tool v a pt vp s p, nocrlf tool = true -> vinfo_ok v -> ainfo_ok a -> int64 (ai_rate a) ->
+  video_kind v = Some (pt, vp, s, p) ->
+  exists ctx, sdp_pack b64_dec hex_dec b64_enc hex_enc tool v a = Ok ctx /\
+              lc_video ctx = {| tk_has := true; tk_rate := 90000; tk_base := pt; tk_orig := pt; tk_ctl := q_streamid0 |} /\
+              lc_vps ctx = vp /\ lc_sps ctx = Some s /\ lc_pps ctx = Some p.
+Proof. intros ? ? ? ? (H1 & H2 & H3 & H4 & H5). exact (sdp_pack_video _ _ _ _ H1 H2 H3 H4 H5). Qed.
+Print Assumptions c19_sdp_video.
+
+Theorem c19_sdp_audio : forall b64_dec hex_dec b64_enc hex_enc, codec_laws b64_dec hex_dec b64_enc hex_enc ->
+  forall tool v a pt rate asc, nocrlf tool = true -> vinfo_ok v -> ainfo_ok a -> int64 (ai_rate a) ->
+  audio_kind a = Some (pt, rate, asc) ->
+  exists ctx, sdp_pack b64_dec hex_dec b64_enc hex_enc tool v a = Ok ctx /\
+              lc_audio ctx = {| tk_has := true; tk_rate := rate; tk_base := pt; tk_orig := pt;
+                                tk_ctl := q_sid ++ fmt_d (match video_kind v with Some _ => 1 | None => 0 end) |} /\
+              lc_asc ctx = match asc with Some c => if 2 <=? lenN c then Some c else None | None => None end.
+Proof. intros ? ? ? ? (H1 & H2 & H3 & H4 & H5). exact (sdp_pack_audio _ _ _ _ H1 H2 H3 H4 H5). Qed.
+Print Assumptions c19_sdp_audio.
+
+(* Pack refuses exactly the streams without a usable track (no law needed) *)
+Theorem c19_sdp_refuses : forall b64_dec hex_dec b64_enc hex_enc tool v a,
+  video_kind v = None -> audio_kind a = None ->
+  sdp_pack b64_dec hex_dec b64_enc hex_enc tool v a = Err err_other.
+Proof. exact sdp_pack_refuses. Qed.
+Print Assumptions c19_sdp_refuses.
+
+(* the line parsers on the templates, with symbolic encoded values *)
+Theorem c19_sdp_fmtp_avc : forall S P, clean S = true -> clean P = true ->
+  parse_a_fmtp (t_fmtp_avc_1 ++ S ++ [44] ++ P ++ t_fmtp_avc_2)
+  = Ok {| fp_format := 96; fp_params := [(q_pm_k, q_one); (k_sprop, S ++ [44] ++ P); (q_pli_k, q_pli_v)] |}.
+Proof. exact fmtp_avc_line. Qed.
+Print Assumptions c19_sdp_fmtp_avc.
+
+Theorem c19_sdp_fmtp_hevc : forall S P V, clean S = true -> clean P = true -> clean V = true ->
+  parse_a_fmtp (t_fmtp_hevc_1 ++ S ++ t_fmtp_hevc_2 ++ P ++ t_fmtp_hevc_3 ++ V)
+  = Ok {| fp_format := 98; fp_params := [(q_pid_k, q_one); (k_sprop_sps, S); (k_sprop_pps, P); (k_sprop_vps, V)] |}.
+Proof. exact fmtp_hevc_line. Qed.
+Print Assumptions c19_sdp_fmtp_hevc.
+
+Theorem c19_sdp_fmtp_aac : forall H, clean H = true ->
+  parse_a_fmtp (t_fmtp ++ fmt_d pt_aac ++ t_fmtp_aac ++ H)
+  = Ok {| fp_format := 97; fp_params := q_aac_params ++ [(k_config, H)] |}.
+Proof. exact fmtp_aac_line. Qed.
+Print Assumptions c19_sdp_fmtp_aac.
+
+Theorem c19_sdp_rtpmap : forall rate, int64 rate ->
+  parse_a_rtpmap (t_rtpmap ++ fmt_d pt_aac ++ t_aac_1 ++ fmt_d rate ++ t_aac_2)
+  = Ok {| rm_pt := 97; rm_name := k_aac; rm_rate := rate; rm_params := q_two |}.
+Proof. exact rtpmap_aac_line. Qed.
+Print Assumptions c19_sdp_rtpmap.
+
+(* strconv.Atoi (fmt.Sprintf "%d" z) = z on the whole int64 range *)
+Theorem c19_sdp_atoi_fmt : forall z, int64 z -> atoi (fmt_d z) = (z, 0).
+Proof. exact atoi_fmt_d. Qed.
+Print Assumptions c19_sdp_atoi_fmt.
+
+(* "\n" -> "\r\n" and Split on "\r\n" give back the template lines *)
+Theorem c19_sdp_lines : forall lines, forallb nocrlf lines = true ->
+  split_crlf (replace_nl (join_nl lines)) = lines ++ [[]].
+Proof. intros l H. rewrite (replace_nl_join l H). exact (split_crlf_join l H). Qed.
+Print Assumptions c19_sdp_lines.
+
+(* non-vacuity: the laws are satisfiable (a hexadecimal codec meets them), and
+   on a concrete H264 + AAC stream the statement is about a non-trivial text *)
+Example c19_sdp_laws_satisfiable : codec_laws w_dec w_dec w_enc w_enc.
+Proof. repeat split; [exact w_rt | exact w_rt | exact w_clean | exact w_clean | exact w_len]. Qed.
+
+Example c19_sdp_nonvacuous :
+  let v := {| vi_pt := 96; vi_vps := None; vi_sps := Some [103; 100; 0; 31]; vi_pps := Some [104; 235; 236] |} in
+  let a := {| ai_pt := 97; ai_rate := 44100; ai_asc := Some [18; 16] |} in
+  video_kind v = Some (96%Z, None, [103; 100; 0; 31], [104; 235; 236]) /\
+  audio_kind a = Some (97%Z, 44100%Z, Some [18; 16]) /\
+  match sdp_pack w_dec w_dec w_enc w_enc [108; 97; 108] v a with
+  | Ok ctx => lc_sps ctx = Some [103; 100; 0; 31] /\ lc_asc ctx = Some [18; 16] /\
+              tk_rate (lc_audio ctx) = 44100%Z /\ (300 <? lenN (lc_raw ctx)) = true
+  | _ => False
+  end.
+Proof. vm_compute. repeat split. Qed.
